@@ -1,5 +1,5 @@
 (* C08 — property theorems.  Nothing but statements, `exact`, Print Assumptions. *)
-From G08 Require Import Cfg Spec Proofs V1Proofs SegProofs BoundProofs Obligations Refuted.
+From G08 Require Import Cfg Spec Proofs V1Proofs SegProofs BoundProofs InvProofs Obligations Refuted.
 Open Scope N_scope.
 
 (* v2: a well-formed header followed by ANY payload is accepted, the advertised addresses are returned and the
@@ -21,6 +21,27 @@ Theorem T08_exact_handover_v1_unknown : forall rest payload, wf_v1_unknown rest 
   exists h, read_flat src_cfg (v1_unknown_line rest ++ CRLF ++ payload) = Ok h payload /\ adv_of h = adv_local.
 Proof. exact (fun rest payload => read_v1_unknown_wf src_cfg rest payload ob_common ob_v1). Qed.
 Print Assumptions T08_exact_handover_v1_unknown.
+
+(* the three together: every well-formed header (Spec.wf_header) followed by any payload *)
+Theorem T08_exact_handover : forall hd a payload, wf_header hd a ->
+  exists h, read_flat src_cfg (hd ++ payload) = Ok h payload /\ adv_of h = a.
+Proof. exact (fun hd a payload Hwf =>
+  match Hwf in wf_header hd0 a0 return exists h, read_flat src_cfg (hd0 ++ payload) = Ok h payload /\ adv_of h = a0 with
+  | WF_v1 f H => eq_ind _ (fun x => exists h, read_flat src_cfg x = Ok h payload /\ adv_of h = adv_v1 f)
+                        (read_v1_tcp_wf src_cfg ob_common ob_v1 f payload H) _ (app_assoc _ _ _)
+  | WF_unknown r H => eq_ind _ (fun x => exists h, read_flat src_cfg x = Ok h payload /\ adv_of h = adv_local)
+                        (read_v1_unknown_wf src_cfg r payload ob_common ob_v1 H) _ (app_assoc _ _ _)
+  | WF_v2 g H => read_v2_wf src_cfg ob_common ob_v2 g payload H
+  end). Qed.
+Print Assumptions T08_exact_handover.
+
+(* conversely: whatever byte string ReadHeader accepts starts with a well-formed header, the returned addresses are
+   the advertised ones, and what is left in the stream is exactly what follows that header; every other input
+   (malformed, truncated, oversized) is an error, i.e. that connection fails *)
+Theorem T08_accept_only_wf : forall bs h rest, is_bytes bs = true ->
+  read_flat src_cfg bs = Ok h rest -> exists hd, bs = hd ++ rest /\ wf_header hd (adv_of h).
+Proof. exact (fun bs h rest => accept_only_wf src_cfg bs h rest ob_common ob_v1 ob_v2 ob_strict). Qed.
+Print Assumptions T08_accept_only_wf.
 
 (* every way of cutting the byte stream into TCP segments gives the same result (accepted header or error class)
    and the same remaining bytes as the unsegmented stream — for every input, well formed or not *)
@@ -60,7 +81,21 @@ Print Assumptions T08_failed_header_uses_socket.
 Theorem T08_no_missing_addr_refuted_on_pinned_tree :
   exists bs, length bs = 18%nat /\ remote_addr pinned_cfg (read_flat pinned_cfg bs) sock0 = None.
 Proof. exact no_missing_addr_refuted_pinned. Qed.
+Theorem T08_accept_only_wf_refuted_on_pinned_tree :
+  forall bs, In bs [ b "PROXY TCP4 1.1.1.1 2.2.2.2 -1 70000" ++ CRLF; b "PROXY TCP4 1.1.1.1 2.2.2.2 1 2 junk" ++ CRLF;
+                     b "PROXY TCP4 ::1 ::2 10000 20000" ++ CRLF; b "PROXY TCP4X1.1.1.1 2.2.2.2 1 2" ++ CRLF ] ->
+  spec_find bs = None /\ exists h, read_flat pinned_cfg bs = Ok h [].
+Proof. exact accept_only_wf_refuted_pinned. Qed.
 Theorem T08_exact_handover_refuted_on_pinned_tree :
   exists f payload, wf_v1_tcp f /\
     match read_flat pinned_cfg (v1_line f ++ CRLF ++ payload) with Ok _ _ => False | Err _ _ => True end.
 Proof. exact exact_handover_refuted_pinned. Qed.
+
+(* Non-vacuity: concrete well-formed headers of each kind meet the hypotheses, and the model run on them. *)
+Example T08_example :
+  wf_v1_tcp {| f_is6 := true; f_src := b "::"; f_dst := b "::1"; f_sport := b "0"; f_dport := b "65535" |} /\
+  wf_v1_unknown (b " anything") /\
+  wf_v2 {| g_vc := 33; g_fam := 18; g_body := [10;0;0;1; 10;0;0;2; 1;187; 0;80; 3;0;1;9] |} /\
+  read_flat src_cfg (b "PROXY TCP6 :: ::1 0 65535" ++ CRLF ++ b "GET") =
+    Ok (mk_v1 (tcp (zeros 16) 0%Z) (tcp (zeros 15 ++ [1]) 65535%Z)) (b "GET").
+Proof. exact example_wf. Qed.
